@@ -37,7 +37,7 @@ import (
 )
 
 // Children is the child-process entry table of the c19 binary.
-var Children = map[string]func([]string) int{"run": childRun}
+var Children = map[string]func([]string) int{"run": childRun, "proxy": childProxy}
 
 type opIn struct {
 	kind byte // 's' sub, 'u' unsub, 'b' broadcast
@@ -464,6 +464,23 @@ func Run(c *core.Ctx) {
 		longMu.Unlock()
 	}()
 
+	// 0c. the stream as the product serves it: through proxy.Handler, real
+	// HTTP clients, loggers at INFO and DEBUG level (proxy.go)
+	longWG.Add(1)
+	go func() {
+		defer longWG.Done()
+		defer func() {
+			if e := recover(); e != nil {
+				if ie, ok := e.(core.InfraError); ok {
+					c.Inconclusive("infrastructure: " + ie.Msg)
+					return
+				}
+				panic(e)
+			}
+		}()
+		r.proxyPart(c.Pick(1, 10))
+	}()
+
 	// 1. the canonical minimal schedule, then all forced schedules
 	min := MinimalCrashScript()
 	r.minText = min.Text()
@@ -544,6 +561,51 @@ func Run(c *core.Ctx) {
 	c.Set("random_histories", total)
 	longWG.Wait()
 	r.finish()
+}
+
+// proxyPart runs the through-the-proxy sessions in a child and judges its report.
+func (r *runner) proxyPart(reps int) {
+	c := r.c
+	rf := filepath.Join(r.dir, "proxy.json")
+	r.mu.Lock()
+	r.children++
+	r.mu.Unlock()
+	res, err := childproc.Run(childproc.Spec{Child: "proxy", Args: []string{rf, fmt.Sprint(reps)}, Dir: r.dir, Tag: "proxy", Timeout: 10 * time.Minute})
+	if err != nil {
+		core.Infra("cannot start child: %v", err)
+	}
+	if res.Crashed() {
+		head := childproc.Head(res.StderrPath, 1<<16)
+		msg, frame := childproc.PanicLine(head)
+		c.Eval(1)
+		if !res.TimedOut && msg != "" && frame != "" {
+			c.Violate("proxy/crash["+msg+" in "+frame+"]", fmt.Sprintf("the process serving the reload stream through proxy.Handler died (%s): %s", res.Describe(), firstLines(head, 12)), map[string]any{"part": "proxy"})
+			return
+		}
+		c.Inconclusive(fmt.Sprintf("proxy child failed (%s): %s", res.Describe(), firstLines(res.StderrTail, 8)))
+		return
+	}
+	var pr proxyResult
+	b, err := os.ReadFile(rf)
+	if err != nil || json.Unmarshal(b, &pr) != nil {
+		c.Inconclusive("proxy child wrote no report")
+		return
+	}
+	c.Eval(pr.Sessions)
+	c.NontrivialN(pr.Sessions)
+	for _, v := range pr.Viol {
+		c.Violate(v.Key, v.Summary, map[string]any{"part": "proxy"})
+	}
+	for _, s := range pr.Inconc {
+		c.Inconclusive("proxy part: " + s)
+	}
+	c.Set("proxy_sessions", pr.Sessions)
+	c.Set("proxy_clients", pr.Clients)
+	c.Set("proxy_events_delivered", pr.Delivered)
+	c.Set("proxy_logger_levels", pr.Levels)
+	if pr.Sessions == 0 {
+		c.Inconclusive("the proxy part ran no session")
+	}
 }
 
 // probe runs ProbeScript in a child and records which hook sites were reached.
